@@ -162,6 +162,11 @@ def gen(ctx, rng):
         cube = rng.integers(-20, 20, size=(2, 2, L))
         cube = np.where(rng.random(cube.shape) < 0.3, ND, cube)
         macc.append(dict(xx=cube.tolist(), grp=lab[:L], nd=ND, dtype=["int16", "float32", "int32"][k % 3]))
+    # labelings whose last element is not the largest label: cyclic indices ending mid-cycle, descending blocks
+    for k, lab in enumerate([[0, 1, 2, 0, 1], [1, 1, 0], [2, 2, 1, 1, 0, 0], [0, 1, 2, 3, 0, 1, 2, 3, 0]]):
+        cube = rng.integers(-20, 20, size=(2, 2, len(lab)))
+        cube = np.where(rng.random(cube.shape) < 0.2, ND, cube)
+        macc.append(dict(xx=cube.tolist(), grp=lab, nd=ND, dtype=["int16", "float32", "int32", "int64"][k % 4]))
     return rolling, pairs, acc, mean, macc
 
 
